@@ -389,6 +389,15 @@ type StructCode struct {
 	disableIndirectConversion bool
 	isIndirect                bool
 	isRecursive               bool
+	// fields dropped because their name is ambiguous in this struct, with their embedding depth
+	// below it: in a struct that embeds this one they are ambiguous as well and hide the
+	// fields of that name that lie deeper
+	ambiguous []ambiguousField
+}
+
+type ambiguousField struct {
+	field *StructFieldCode
+	depth int
 }
 
 func (c *StructCode) Kind() CodeKind {
@@ -622,6 +631,7 @@ func (c *StructCode) Filter(query *FieldQuery) Code {
 		disableIndirectConversion: c.disableIndirectConversion,
 		isIndirect:                c.isIndirect,
 		isRecursive:               c.isRecursive,
+		ambiguous:                 c.ambiguous,
 	}
 }
 
